@@ -52,8 +52,9 @@ def main():
         if name in structs: return rust_path(name)
         return t
 
-    def lty(t):
+    def lty(t, carrier='Float'):
         t = t.strip()
+        if carrier != 'Float': return lty(t).replace('Float', carrier)
         if t.startswith('&'):
             t = re.sub(r"^&('\w+ )?(mut )?", '', t); return lty(t)
         if t == '()': return 'Unit'
@@ -108,13 +109,13 @@ def main():
                        'alpha': 'none', 'file': 'lymui/src/hex.rs', 'tparams': [], 'dicts': []}, 'pub'))
 
     # ---------------- Lean
-    L = ['-- GENERATED by tools/gen_dispatch.py; do not edit.', 'import LymuiVerif.Gen.Model', 'import LymuiVerif.Inst.Float', 'import LymuiVerif.Core.Wire', 'namespace Gen', 'open Wire', '']
+    L = ['-- GENERATED by tools/gen_dispatch.py; do not edit.', 'import LymuiVerif.Gen.Model', 'import LymuiVerif.Inst.Float', 'import LymuiVerif.Inst.Exact', 'import LymuiVerif.Core.Wire', 'namespace Gen', 'open Wire', '']
     for name, info in structs.items():
-        ty = f'({name} Float)' if float_struct(name) else name
+        ty = f'({name} α)' if float_struct(name) else name
         fl = info['fields']
-        L.append(f'instance : Wire {ty} where')
+        L.append(f'instance {{α : Type}} [Wire α] : Wire {ty} where' if float_struct(name) else f'instance : Wire {ty} where')
         L.append('  rd := do')
-        for k_, (fn_, ft) in enumerate(fl): L.append(f'    let f{k_}_ : {lty(ft)} ← Wire.rd')
+        for k_, (fn_, ft) in enumerate(fl): L.append(f'    let f{k_}_ : {lty(ft, "α")} ← Wire.rd')
         L.append('    pure { ' + ', '.join(f'{fn_} := f{k_}_' for k_, (fn_, _) in enumerate(fl)) + ' }')
         L.append('  wr v := ' + ' ++ '.join(f'Wire.wr v.{fn_}' for fn_, _ in fl))
         L.append('')
@@ -138,25 +139,27 @@ def main():
         for i, (v, _) in enumerate(vs): L.append(f'    | .{v} => [toString {i}]')
         L.append('')
     L.append('def dispatchFuel : Nat := 100000')
-    L.append('def dispatch (name : String) : Reader (List String) :=')
-    L.append('  match name with')
-    for f, vis in funcs:
-        L.append(f'  | "{f["name"]}" => do')
-        args = []
-        for i, p in enumerate(f['params']):
-            L.append(f'    let a{i} : {lty(p)} ← Wire.rd'); args.append(f'a{i}')
-        pre = []
-        if f['alpha'] == 'explicit': pre.append('Float')
-        if f['fuel']: pre.append('dispatchFuel')
-        call = ' '.join([f['name']] + pre + args)
-        rt = lty(f['ret'])
-        muts = [p for p in f['params'] if p.startswith('&mut')]
-        if muts:
-            rt = lty(muts[0]) if f['ret'] == '()' else f'({rt} × {lty(muts[0])})'
-        if f['monadic']: L.append(f'    pure (Wire.wr (({call}) : Res {rt}))')
-        else: L.append(f'    pure (Wire.wr (({call}) : {rt}))')
-    L.append('  | _ => Reader.fail')
-    L.append('')
+    for carrier, dname in (('Float', 'dispatch'), ('Rat', 'dispatchQ')):
+        L.append(f'def {dname} (name : String) : Reader (List String) :=')
+        L.append('  match name with')
+        for f, vis in funcs:
+            L.append(f'  | "{f["name"]}" => do')
+            args = []
+            for i, p in enumerate(f['params']):
+                L.append(f'    let a{i} : {lty(p, carrier)} ← Wire.rd'); args.append(f'a{i}')
+            pre = []
+            if f['alpha'] == 'explicit': pre.append(carrier)
+            if f['fuel']: pre.append('dispatchFuel')
+            call = ' '.join([f['name']] + pre + args)
+            if f['alpha'] == 'implicit': call = ' '.join([f['name'], f'(α := {carrier})'] + pre + args)
+            rt = lty(f['ret'], carrier)
+            muts = [p for p in f['params'] if p.startswith('&mut')]
+            if muts:
+                rt = lty(muts[0], carrier) if f['ret'] == '()' else f'({rt} × {lty(muts[0], carrier)})'
+            if f['monadic']: L.append(f'    pure (Wire.wr (({call}) : Res {rt}))')
+            else: L.append(f'    pure (Wire.wr (({call}) : {rt}))')
+        L.append('  | _ => Reader.fail')
+        L.append('')
     L.append('def dispatchNames : List String := [' + ', '.join(f'"{f["name"]}"' for f, _ in funcs) + ']')
     L.append('end Gen')
     write_if_changed(lean_out, '\n'.join(L) + '\n')
